@@ -142,6 +142,15 @@ def tab_fragment_symbols(repo, tier="quick"):
     else:
         obs.append(ob_ok("TAB.fragment-symbols", fi, fnode, construct="fragment symbol table", instance="inverse-of-writer",
                          reason="every symbol the writer emits for orders 0..4 is read back to that order"))
+    doc = GRAMMAR["fragment_order_symbols"]
+    if ftable == doc:
+        obs.append(ob_ok("TAB.fragment-symbols", fi, fnode, construct="fragment symbol table", instance="documented",
+                         reason="equals the documented table %s" % doc))
+    else:
+        diff = {k: (ftable.get(k), doc.get(k)) for k in set(ftable) | set(doc) if ftable.get(k) != doc.get(k)}
+        obs.append(ob_fail("TAB.fragment-symbols", fi, fnode, construct="fragment symbol table", instance="documented",
+                           reason="a bond order symbol in front of a bonding descriptor is read as another order than documented "
+                                  "(symbol: (read, documented)) %s" % diff))
     return obs
 
 
@@ -162,6 +171,10 @@ def _dialect_from_call(module, call):
     except ValueError:
         raise AnalysisError("create_dialect argument is not a literal", "%s:%d" % (module.relpath, call.lineno))
     accept = True
+    cd = module.functions.get("create_dialect")
+    if cd is not None and cd.defaults().get("accept_kwargs") is not None:
+        # the default of create_dialect itself decides when the call does not say
+        accept = fold_const(cd.defaults()["accept_kwargs"], module)
     for kw in call.keywords:
         if kw.arg == "accept_kwargs":
             accept = fold_const(kw.value, module)
